@@ -1,0 +1,7 @@
+//go:build !verif
+
+package client
+
+// verifIntercept is a verification-harness interception point of chain calls.
+// Without the verif tag it never intercepts anything.
+func (c *Client) verifIntercept(string, ...any) (bool, any, error) { return false, nil, nil }
